@@ -49,7 +49,7 @@ SW_REQ(self) SRC_REQ(data, size) __CPROVER_requires(size <= self->data.cap - sel
 E02(verif_exc == 0 && self->data.size <= self->data.cap)
 E01(self->data.size == __CPROVER_old(self->data.size) + size)
 E01(g_vk < __CPROVER_old(self->data.size) ==> self->data.data[g_vk] == (char)g_vval)
-E01(g_mk < size ==> self->data.data[__CPROVER_old(self->data.size) + g_mk] == ((const char*)data)[g_mk])
+E01((g_vk >= __CPROVER_old(self->data.size) && g_vk < self->data.size) ==> self->data.data[g_vk] == ((const char*)data)[g_vk - __CPROVER_old(self->data.size)])
 __CPROVER_assigns(self->data.size, __CPROVER_object_whole(self->data.data));
 
 void StringWriter_extend_to(StringWriter* self, size_t size, char v)
